@@ -1,5 +1,7 @@
 import JF.Model.Walker
 import JF.Lemmas.WalkerBuild
+import JF.Lemmas.WalkerGeom
+import JF.Lemmas.WalkerHandler
 import Mathlib.Order.Interval.Set.Basic
 /-!
 # C18 — Cell-veto proposals pick target cells exactly in proportion to their bound rates
@@ -248,5 +250,142 @@ theorem zero_rate_selected_at_draw_zero_float :
     (match build Ops.float [0.0, 1.0] with
       | .ok t => sampleCell t 0 0.0
       | .error _ => .error .index) = .ok 0 := by decide +kernel
+
+/-! ## Part 2: the cell-veto handler
+
+For an initialised handler (`initHandler` succeeded on the estimator's bounds `est`) and a successful
+`send_event_time`:
+* `send_event_time_sound`: the candidate time is the time stamp plus `expovariate / (total · |cf| · speed)` where
+  `total` is the sum of `max(bound, 0)` over the walker's domain for the direction of motion and the sign of the
+  charge factor; the target cell is `translate(active cell, sampled offset)`, which on a cell system with exact
+  cell boundaries is the cell whose identifier is the component-wise sum modulo the grid (`translate_is_offset`);
+  the confirmation bound `_bounding_event_rate` is the stored bound of the sampled offset for that direction and
+  sign times `|cf|`, and the stored bound is the estimator's (`upper`, `-lower`);
+* `offset_proposal_rate`: the rate at which offset `j` is proposed, `total·|cf|·speed·P(j)`, equals
+  `max(bound_j, 0)·|cf|·speed`;
+* `bounding_rate_positive`: for a draw `0 < x ≤ mean` the sampled offset has a positive bound, so
+  `assert self._bounding_event_rate > 0.0` cannot fail (at `x = 0` it can: finding F4).
+-/
+
+/-- the total stored by the constructor is the sum, whatever the rates (no validity needed) -/
+theorem build_total {rates : List ℚ} {t : Table ℚ} (hb : build Ops.rat rates = .ok t) : t.total = rates.sum := by
+  unfold build at hb
+  cases rates with
+  | nil => exact absurd hb (by simp)
+  | cons r rs =>
+    simp only at hb
+    split at hb
+    · exact absurd hb (by simp)
+    · split at hb
+      · exact absurd hb (by simp)
+      · split at hb
+        · exact absurd hb (by simp)
+        · simp only [Except.ok.injEq] at hb
+          subst hb
+          simp only [pysum_rat]
+
+theorem getD_nonneg (V : Valid rates) (j : Nat) : 0 ≤ rates.getD j 0 := by
+  by_cases hj : j < rates.length
+  · have : rates.getD j 0 = rates[j] := by simp [List.getD_eq_getElem?_getD, List.getElem?_eq_getElem hj]
+    rw [this]; exact V.nonneg _ (List.getElem_mem hj)
+  · simp [List.getD_eq_getElem?_getD, List.getElem?_eq_none (not_lt.mp hj)]
+
+/-- whatever `sample_cell` returns for a draw `0 < x ≤ mean` has a positive rate -/
+theorem sampled_has_positive_rate (V : Valid rates) (hb : build Ops.rat rates = .ok t) (k j : Nat) (x : ℚ)
+    (hx0 : 0 < x) (hxm : x ≤ t.mean) (hs : sampleCell t k x = .ok j) : 0 < rates.getD j 0 := by
+  rcases (getD_nonneg V j).lt_or_eq with h | h
+  · exact h
+  · exact absurd hs (zero_rate_never_selected V hb j h.symm k x hx0 hxm)
+
+/-- **offset → target cell**: on a periodic cell system with exact cell boundaries, `translate(cell, offset)`
+raises nothing and returns the cell whose identifier is the component-wise sum of the two identifiers modulo
+the numbers of cells per side — for every grid, every cell and every offset -/
+theorem translate_is_offset (g : Grid ℚ) (hex : ∀ D ∈ g.dims, DimExact D) (c r : Nat) :
+    ∃ target, translate Ops.rat g c r = .ok target ∧ target < numCells g.ns ∧
+      cellId g.ns target = offsetId g.ns (cellId g.ns c) (cellId g.ns r) := by
+  have hpos : ∀ n ∈ g.ns, 0 < n := by
+    intro n hn; simp only [Grid.ns, List.mem_map] at hn; obtain ⟨D, hD, rfl⟩ := hn; exact (hex D hD).1
+  exact ⟨_, translate_rat g hex c r, addIdx_lt g.ns hpos c r, cellId_addIdx g.ns hpos c r⟩
+
+/-- non-vacuity of `DimExact`: 4 cells of side 1/4 in a box of length 1 -/
+example : DimExact ⟨4, 1, [0, 1/4, 2/4, 3/4], [1/4, 2/4, 3/4, 1]⟩ := by
+  refine ⟨by norm_num, 1/4, by norm_num, by norm_num, ?_, ?_⟩ <;> simp [List.range_succ] <;> norm_num
+
+/-- **what `send_event_time` returns** (initialised handler, exact cell system) -/
+theorem send_event_time_sound {g : Grid ℚ} {est : List (List (ℚ × ℚ))} {h : Handler ℚ}
+    (hi : initHandler Ops.rat g est = .ok h) (hex : ∀ D ∈ g.dims, DimExact D)
+    {vel pos : List ℚ} {cf : ℚ} {ts : Time ℚ} {k : Nat} {x e : ℚ} {p : Proposal ℚ}
+    (hs : sendEventTime Ops.rat h vel cf pos ts k x e = .ok p) :
+    ∃ dir active walker j,
+      -- the unit moves along `dir` with positive speed, its cell is `active`
+      (List.range vel.length).filter (fun d => vel[d]! != 0) = [dir] ∧ 0 < vel[dir]! ∧
+      posToCell Ops.rat g pos = .ok active ∧
+      -- the walker is the one of the direction of motion and of the sign of the charge factor; `j` is sampled from it
+      (if 0 < cf then h.upper[dir]? else h.lower[dir]?) = some walker ∧ sampleCell walker k x = .ok j ∧
+      -- proposals come at the total rate times the speed
+      (dir < g.dims.length →
+        walker.total = (walkerRates h.bounds (if 0 < cf then (·.1) else (·.2)) dir).sum) ∧
+      walker.total * |cf| * vel[dir]! ≠ 0 ∧
+      p.time.q + p.time.r = ts.q + ts.r + e / (walker.total * |cf| * vel[dir]!) ∧
+      -- the target is the cell at the sampled offset from the active cell
+      translate Ops.rat g active (domainOf g.ns g.nl)[j]! = .ok p.target ∧
+      cellId g.ns p.target = offsetId g.ns (cellId g.ns active) (cellId g.ns (domainOf g.ns g.nl)[j]!) ∧
+      -- the confirmation bound is the estimator's bound for that offset, direction and sign
+      p.boundingRate = (if 0 < cf then ((est[j]!)[dir]!).1 else -((est[j]!)[dir]!).2) * |cf| ∧ 0 < p.boundingRate := by
+  obtain ⟨hg, hdom, hbounds, hwalk⟩ := initHandler_spec g est h hi
+  obtain ⟨dir, active, walker, j, h1, h2, h3, h4, h5, h6, h7, h8, h9, h10⟩ := send_spec hs
+  rw [hg] at h3 h8
+  rw [hdom] at h8
+  refine ⟨dir, active, walker, j, h1, h2, h3, h4, h5, ?_, h9, h10, h8, ?_, ?_, h7⟩
+  · intro hd
+    obtain ⟨⟨tu, htu, hbu⟩, ⟨tl, htl, hbl⟩⟩ := hwalk dir hd
+    by_cases hc : 0 < cf
+    · simp only [hc, if_true] at h4 ⊢
+      rw [htu] at h4; cases h4; exact build_total hbu
+    · simp only [hc, if_false] at h4 ⊢
+      rw [htl] at h4; cases h4; exact build_total hbl
+  · obtain ⟨t', ht', -, hid⟩ := translate_is_offset g hex active (domainOf g.ns g.nl)[j]!
+    rw [ht'] at h8; cases h8; exact hid
+  · rw [h6, hbounds]
+    congr 1
+    by_cases hj : j < est.length
+    · by_cases hd : dir < (est[j]).length
+      · simp [hj, hd]
+      · simp [hj, hd]
+        split <;> rfl
+    · simp [hj]
+      split <;> rfl
+
+/-- **each offset is proposed at its own bound rate**: the total proposal rate `total·|cf|·speed` times the
+probability that the walker selects offset `j` is `max(bound_j, 0)·|cf|·speed` -/
+theorem offset_proposal_rate {bounds : List (List (ℚ × ℚ))} {sel : ℚ × ℚ → ℚ} {d : Nat} {walker : Table ℚ}
+    (V : Valid (walkerRates bounds sel d)) (hb : build Ops.rat (walkerRates bounds sel d) = .ok walker)
+    (j : Nat) (hj : j < bounds.length) (cf speed : ℚ) :
+    walker.total * |cf| * speed * selectionProbability walker j = max (sel ((bounds[j]!)[d]!)) 0 * |cf| * speed := by
+  rw [selection_probability V hb, total_rate_eq_sum V hb]
+  have hs := V.pos
+  have : (walkerRates bounds sel d).getD j 0 = max (sel ((bounds[j]!)[d]!)) 0 := by
+    simp [walkerRates, hj, pymax0_rat]
+  rw [this]; field_simp
+
+/-- **the confirmation bound is positive for every draw `0 < x ≤ mean`**: the `assert` on
+`_bounding_event_rate` cannot fail, because zero-rate offsets are never sampled -/
+theorem bounding_rate_positive {bounds : List (List (ℚ × ℚ))} {sel : ℚ × ℚ → ℚ} {d : Nat} {walker : Table ℚ}
+    (V : Valid (walkerRates bounds sel d)) (hb : build Ops.rat (walkerRates bounds sel d) = .ok walker)
+    (k j : Nat) (x : ℚ) (hx0 : 0 < x) (hxm : x ≤ walker.mean) (hs : sampleCell walker k x = .ok j)
+    (cf' : ℚ) (hcf : 0 < cf') : 0 < sel ((bounds[j]!)[d]!) * cf' := by
+  have hpos := sampled_has_positive_rate V hb k j x hx0 hxm hs
+  by_cases hj : j < bounds.length
+  · have : (walkerRates bounds sel d).getD j 0 = max (sel ((bounds[j]!)[d]!)) 0 := by
+      simp [walkerRates, hj, pymax0_rat]
+    rw [this] at hpos
+    have : 0 < sel ((bounds[j]!)[d]!) := by
+      rcases le_or_gt (sel ((bounds[j]!)[d]!)) 0 with hle | hgt
+      · rw [max_eq_right hle] at hpos; exact absurd hpos (lt_irrefl _)
+      · exact hgt
+    positivity
+  · have : (walkerRates bounds sel d).getD j 0 = 0 := by
+      simp [walkerRates, List.getD_eq_getElem?_getD, List.getElem?_eq_none (not_lt.mp hj)]
+    rw [this] at hpos; exact absurd hpos (lt_irrefl _)
 
 end JF.C18
